@@ -30,12 +30,46 @@ def renderOut (o : List (Tag × List (Tok Nat))) : String :=
 def renderSt (s : St Nat) : String :=
   renderOut s.out ++ "|term=" ++ (match s.terminated with | some st => st.render | none => "-")
 
+/-- `l:<tag>:<n>` (list of n elements 0..n-1) | `o:<tag>` | `t:<STATUS>` | `r:<tag>,<tag>…` (restore; `r:-` = no valid tag) -/
+def parseSIn (w : String) : Option (SIn Nat) :=
+  match w.splitOn ":" with
+  | ["l", t, n] => do
+      let tag ← parseTag t
+      let k ← n.toNat?
+      pure (.list tag (List.range k))
+  | ["o", t] => (parseTag t).map .other
+  | ["t", st] => (Status.parse st).map .term
+  | ["r", ts] => if ts = "-" then some (.restore []) else ((ts.splitOn ",").mapM parseTag).map .restore
+  | _ => none
+
+def renderSSt (s : SSt Nat) : String :=
+  (if s.elems.isEmpty then "-" else ",".intercalate (s.elems.map renderTok)) ++ "|sizes=" ++
+  (if s.sizes.isEmpty then "-" else ",".intercalate (s.sizes.map (fun z => renderTag z.1 ++ ":" ++ toString z.2))) ++ "|term=" ++
+  (match s.terminated with | some st => st.render | none => "-") ++ (if s.raised then "|raised" else "")
+
 def handle : List String → String
   | ["scatter", t, n] =>
       match parseTag t, n.toNat? with
       | some tag, some k =>
           let (els, sz) := scatter tag (List.range k)
           (if els.isEmpty then "-" else ",".intercalate (els.map renderTok)) ++ "|size=" ++ renderTag sz.1 ++ ":" ++ toString sz.2
+      | _, _ => "bad-op"
+  | "scatterrun" :: ins =>
+      match ins.mapM parseSIn with
+      | some es => renderSSt (srun es)
+      | none => "bad-op"
+  | "scatterprov" :: ins =>
+      match ins.mapM parseSIn with
+      | some es =>
+          let ps := srunProv 0 {} es
+          if ps.isEmpty then "-" else ",".intercalate (ps.map (fun p => (if p.2.1 then "size:" else "") ++ renderTag p.1 ++ "<-" ++ toString p.2.2))
+      | none => "bad-op"
+  | "gatherprov" :: d :: evs =>
+      match d.toNat?, evs.mapM parseEv with
+      | some depth, some es =>
+          let ps := runProv depth {} es
+          if ps.isEmpty then "-" else ";".intercalate (ps.map (fun p => renderTag p.key ++ "<-" ++ (if p.sizeReceived then "S" else "F") ++
+            "[" ++ ",".intercalate (p.elems.map renderTok) ++ "]"))
       | _, _ => "bad-op"
   | "gather" :: d :: evs =>
       match d.toNat?, evs.mapM parseEv with
